@@ -19,7 +19,7 @@ import (
 type Atom struct {
 	ID    int      `json:"id"`
 	Col   string   `json:"col"`
-	Op    string   `json:"op"` // eq neq lt gt in like isnull
+	Op    string   `json:"op"` // eq neq lt gt lte gte in like isnull
 	IsStr bool     `json:"is_str"`
 	I     int64    `json:"i"`
 	S     string   `json:"s"`
@@ -52,7 +52,7 @@ func (a Atom) RawText() string {
 		}
 		return a.Col + " IN (" + strings.Join(parts, ",") + ")"
 	}
-	op := map[string]string{"eq": "=", "neq": "<>", "lt": "<", "gt": ">", "like": "LIKE"}[a.Op]
+	op := map[string]string{"eq": "=", "neq": "<>", "lt": "<", "gt": ">", "lte": "<=", "gte": ">=", "like": "LIKE"}[a.Op]
 	if a.IsStr {
 		return a.Col + " " + op + " " + sqlLit(a.S)
 	}
@@ -83,7 +83,7 @@ func (a Atom) TmplText(named bool) (tmpl, explained string, arg interface{}, nam
 		}
 		return a.Col + " IN " + ph, a.Col + " IN (" + strings.Join(parts, ",") + ")", a.IL, name
 	}
-	op := map[string]string{"eq": "=", "neq": "<>", "lt": "<", "gt": ">", "like": "LIKE"}[a.Op]
+	op := map[string]string{"eq": "=", "neq": "<>", "lt": "<", "gt": ">", "lte": "<=", "gte": ">=", "like": "LIKE"}[a.Op]
 	if a.IsStr {
 		return a.Col + " " + op + " " + ph, a.Col + " " + op + " " + explLit(a.S), a.S, name
 	}
@@ -105,6 +105,10 @@ func (a Atom) Expression() clause.Expression {
 		return clause.Lt{Column: a.Col, Value: v}
 	case "gt":
 		return clause.Gt{Column: a.Col, Value: v}
+	case "lte":
+		return clause.Lte{Column: a.Col, Value: v}
+	case "gte":
+		return clause.Gte{Column: a.Col, Value: v}
 	case "like":
 		return clause.Like{Column: a.Col, Value: v}
 	case "isnull":
@@ -508,6 +512,12 @@ func (g *Gen) eqAtomsDistinctCols(n int, forStruct bool) []int {
 
 func (g *Gen) GenCExpr(depth int) *CExpr {
 	r := g.R
+	if r.Chance(1, 8) {
+		// clause.Expr{SQL: ...} with inline literals as an operand
+		t := GenTree(r, g.Atoms, 1)
+		p := PrintTree(r, t, g.ByID, "inline", r.Bool())
+		return &CExpr{Kind: "raw", Tmpl: p.Tmpl}
+	}
 	if depth == 0 || r.Chance(1, 2) {
 		return &CExpr{Kind: "atom", Atom: lib.Pick(r, g.Atoms).ID}
 	}
@@ -851,7 +861,7 @@ func GenAtoms(r *lib.Rng, names, nicks []string) []Atom {
 		case 0, 1:
 			a.Col, a.Op, a.I = "age", "eq", int64(r.Range(0, 5))
 		case 2:
-			a.Col, a.Op, a.I = "age", lib.Pick(r, []string{"lt", "gt", "neq"}), int64(r.Range(1, 4))
+			a.Col, a.Op, a.I = "age", lib.Pick(r, []string{"lt", "gt", "neq", "lte", "gte"}), int64(r.Range(1, 4))
 		case 3:
 			a.Col, a.Op, a.IL = "age", "in", []int64{int64(r.Range(0, 2)), int64(r.Range(3, 5))}
 		case 4, 5:
@@ -874,9 +884,11 @@ func GenAtoms(r *lib.Rng, names, nicks []string) []Atom {
 			}
 		}
 		// an atom and the negation gorm renders for another atom must not share a text
-		if a.Op == "eq" || a.Op == "neq" {
+		// (`age` <> 4 is both "neq 4" and the NegationBuild of "eq 4"; likewise lt/gte, gt/lte)
+		compl := map[string]string{"eq": "neq", "neq": "eq", "lt": "gte", "gte": "lt", "gt": "lte", "lte": "gt"}
+		if c, ok := compl[a.Op]; ok {
 			for _, b := range out {
-				if b.Col == a.Col && b.Op != a.Op && (b.Op == "eq" || b.Op == "neq") && b.I == a.I && b.S == a.S {
+				if b.Col == a.Col && b.Op == c && b.I == a.I && b.S == a.S {
 					clash = true
 				}
 			}
@@ -942,4 +954,74 @@ func GRows(ids []int64, truth map[int][]string) string {
 		rows[i] = lib.Pair(lib.Z(id), lib.List(vals))
 	}
 	return lib.List(rows)
+}
+
+// ---- pattern stream: a catalogue of small units that exercise every parenthesisation and
+// negation decision, placed under every call kind at every position of a short chain ----
+
+func (g *Gen) rawUnit(kind string, style string, hostile bool) Unit {
+	a, b := lib.Pick(g.R, g.Atoms).ID, lib.Pick(g.R, g.Atoms).ID
+	t := &BTree{Kind: kind, Kids: []*BTree{{Kind: "atom", Atom: a}, {Kind: "atom", Atom: b}}}
+	p := PrintTree(g.R, t, g.ByID, style, hostile)
+	form := map[string]string{"inline": "raw", "qmark": "rawargs", "named": "named"}[style]
+	if form == "named" && len(p.Named) == 0 || form == "rawargs" && len(p.Args) == 0 {
+		form = "raw"
+	}
+	return Unit{Form: form, Tmpl: p.Tmpl, Txt: p.Txt, Args: p.Args, Named: p.Named, Tree: t}
+}
+
+func (g *Gen) atomUnit() Unit {
+	if ms := g.eqAtomsDistinctCols(1, false); len(ms) > 0 && g.R.Bool() {
+		return Unit{Form: "map", Members: ms}
+	}
+	return Unit{Form: "expr", CE: &CExpr{Kind: "atom", Atom: lib.Pick(g.R, g.Atoms).ID}}
+}
+
+// Catalogue returns the interesting units (fresh random atoms/formatting each call).
+func (g *Gen) Catalogue() []Unit {
+	ce := func(kind string, kids ...*CExpr) *CExpr { return &CExpr{Kind: kind, Kids: kids} }
+	at := func() *CExpr { return &CExpr{Kind: "atom", Atom: lib.Pick(g.R, g.Atoms).ID} }
+	rawce := func(kind string) *CExpr {
+		u := g.rawUnit(kind, "inline", false)
+		return &CExpr{Kind: "raw", Tmpl: u.Tmpl}
+	}
+	grp := func(cs ...Call) Unit { return Unit{Form: "group", Calls: cs} }
+	w := func(u Unit) Call { return Call{Kind: "where", Unit: u} }
+	o := func(u Unit) Call { return Call{Kind: "or", Unit: u} }
+	n := func(u Unit) Call { return Call{Kind: "not", Unit: u} }
+	return []Unit{
+		g.rawUnit("or", "inline", false), g.rawUnit("and", "inline", false),
+		g.rawUnit("or", "inline", true), g.rawUnit("or", "named", false), g.rawUnit("or", "qmark", true),
+		g.atomUnit(), {Form: "map", Members: g.eqAtomsDistinctCols(2, false)},
+		{Form: "expr", CE: ce("and", at(), at())}, {Form: "expr", CE: ce("or", at(), at())},
+		{Form: "expr", CE: ce("and", at(), rawce("or"))}, {Form: "expr", CE: ce("or", rawce("and"), at())},
+		{Form: "expr", CE: ce("not", at())}, {Form: "expr", CE: ce("not", rawce("or"))},
+		grp(w(g.atomUnit()), w(g.rawUnit("or", "inline", false))),
+		grp(w(g.rawUnit("or", "named", false)), w(g.atomUnit())),
+		grp(w(g.atomUnit()), o(g.atomUnit())),
+		grp(w(g.rawUnit("and", "inline", false)), o(g.rawUnit("or", "inline", false))),
+		grp(n(g.atomUnit()), w(g.rawUnit("or", "inline", false))),
+		grp(w(g.atomUnit()), w(g.atomUnit()), o(g.rawUnit("or", "qmark", false))),
+		grp(w(Unit{Form: "map", Members: g.eqAtomsDistinctCols(2, false)})),
+		grp(o(g.rawUnit("or", "inline", false))),
+	}
+}
+
+// PatternChains: every catalogue unit under every call kind, alone, after a Where(atom),
+// before a Where(atom), and between two; leading Or only when allowLeadingOr.
+func (g *Gen) PatternChains(allowLeadingOr bool) [][]Call {
+	var out [][]Call
+	cat := g.Catalogue()
+	for _, u := range cat {
+		for _, k := range []string{"where", "not", "or"} {
+			c := Call{Kind: k, Unit: u}
+			pre := Call{Kind: "where", Unit: g.atomUnit()}
+			post := Call{Kind: lib.Pick(g.R, []string{"where", "where", "or"}), Unit: g.atomUnit()}
+			if k != "or" || allowLeadingOr {
+				out = append(out, []Call{c}, []Call{c, post})
+			}
+			out = append(out, []Call{pre, c}, []Call{pre, c, post})
+		}
+	}
+	return out
 }
